@@ -32,7 +32,7 @@ Print Assumptions something_wrong_is_red.
 (* a de-selected scenario contributes no event besides its announcement, and cannot fail *)
 Theorem deselected_scenario_cannot_fail :
   forall cfg st id all_steps oe eff own,
-    c_expr cfg eff = false ->
+    sel cfg eff = false ->
     exists res ev,
       run_scenario cfg st id all_steps oe eff own = (st, res, false, ev) /\
       existsb bad ev = false.
@@ -51,7 +51,7 @@ Print Assumptions feature_failed_iff.
 
 (* non-vacuity: concrete programs on both sides of the equivalence *)
 Definition ex_cfg : cfgdata :=
-  mkCfgData false false true TTrue [HBeforeAll; HAfterScenario] [] [] 99 false.
+  mkCfgData false false true TTrue [HBeforeAll; HAfterScenario] [] [] 99 false None.
 Definition ex_feature (k : skind) : feature :=
   mkFeature 1 [] None [FItem (SScen (mkScen 2 [] [mkStep KPass 1; mkStep k 2; mkStep KPass 3]))].
 
